@@ -604,3 +604,5 @@ def run(S):
     rule_min(S)
     rule_adv(S)
     rule_pub(S)
+    from checks import C14
+    C14.rule_lve(S)
